@@ -3,7 +3,8 @@
 # usage: tools/suite.sh   -> prints missing tests (baseline-passing tests that did not pass now); exit 0 iff none
 set -u
 OUT=$(mktemp /tmp/suite.XXXXXX.xml)
-cd /repo && env -u WEASYPRINT_VERIF PYTHONPATH=/repo /venv/bin/python -m pytest -q -p no:cacheprovider -n 16 --timeout=900 --continue-on-collection-errors --junitxml=$OUT >/dev/null 2>&1
+R=${1:-/repo}
+cd $R && env -u WEASYPRINT_VERIF PYTHONPATH=$R /venv/bin/python -m pytest -q -p no:cacheprovider -n 16 --timeout=900 --continue-on-collection-errors --junitxml=$OUT >/dev/null 2>&1
 /venv/bin/python - "$OUT" <<'PY'
 import sys, json, xml.etree.ElementTree as ET
 base=set(json.load(open('/root/.vp/BASELINE.json'))['stable_pass'])
